@@ -56,15 +56,16 @@ CONSTANTS Deviations,   \* deviation tags of the outbox that are enabled
           MaxOps,       \* total number of client calls
           MaxQueue,     \* bound on queued entries
           MaxRestarts,  \* bound on worker restarts (0 = the worker never dies)
+          Workers,      \* claim owners: worker loops of processes sharing the database and the outbox id
           PreState      \* "empty" | "bucket" | "object": what exists before the first call
 
 VARIABLES inner,     \* Pithos state of the inner storage
-          queue,     \* Seq of entries [seq, op, b, k, blob, opt, claimed], ascending seq
+          queue,     \* Seq of entries [seq, op, b, k, blob, opt, owner], ascending seq (owner = claim owner or "")
           nseq,      \* next acceptance sequence number of a queue entry
           accepted,  \* Seq of [call, seq] : every accepted write in acceptance order (seq = 0: synchronous)
           virt,      \* = Fold(accepted): the accepted writes applied in acceptance order (derived, kept for speed)
           cl,        \* client -> [pc, call, last, must, base, res, ryw, condok]
-          wk,        \* worker: [pc, seq]
+          wk,        \* worker -> [pc, seq]
           cnt,       \* [ops, restarts]
           taken      \* deviation tags whose branch was taken so far
 
@@ -80,8 +81,19 @@ NoCall == [op |-> "", b |-> "", k |-> "", blob |-> "", opt |-> "none", cond |-> 
 MkCall(op, b, k, blob, opt, cond, exp, status) ==
   [op |-> op, b |-> b, k |-> k, blob |-> blob, opt |-> opt, cond |-> cond, exp |-> exp, status |-> status]
 
+\* every read of the storage.Storage interface that outboxStorage wraps, by the wait helper it uses:
+\*   waitForAllOutboxEntriesOfBucketAndKeyIncludingGlobal ("key")
+KeyReads == {"GetObject", "HeadObject", "GetObjectTagging", "ListParts"}
+\*   waitForAllOutboxEntriesOfBucket ("bucket")
+WholeBucketReads == {"ListObjects", "ListObjectVersions"}
+\*   waitForGlobalOutboxEntriesOfBucket ("gbucket")
+GlobalBucketReads == {"HeadBucket", "GetVersioning", "ListMultipartUploads", "GetWebsite", "GetCORS", "GetLifecycle", "GetNotification"}
+BucketReads == WholeBucketReads \cup GlobalBucketReads
+\* reads whose answer this model does not describe (only their wait and their inner call are bound)
+OpaqueReads == {"ListParts", "ListMultipartUploads", "GetWebsite", "GetCORS", "GetLifecycle", "GetNotification"}
+
 Calls ==
-  {MkCall(op, b, "", "", "none", "none", "", "") : op \in {"CreateBucket", "DeleteBucket", "HeadBucket", "ListObjects"} \cap CallOps, b \in Buckets}
+  {MkCall(op, b, "", "", "none", "none", "", "") : op \in {"CreateBucket", "DeleteBucket"} \cap CallOps, b \in Buckets}
   \cup {MkCall("ListBuckets", "", "", "", "none", "none", "", "") : op \in {"ListBuckets"} \cap CallOps}
   \cup {MkCall("PutVersioning", b, "", "", "none", "none", "", st) : op \in {"PutVersioning"} \cap CallOps, b \in Buckets, st \in {"Enabled", "Suspended"}}
   \cup {MkCall("PutObject", b, k, bl, o, "none", "", "") : op \in {"PutObject"} \cap CallOps, b \in Buckets, k \in Keys, bl \in Blobs, o \in OptSets}
@@ -90,9 +102,10 @@ Calls ==
   \cup {MkCall("DeleteObject", b, k, "", "none", "none", "", "") : op \in {"DeleteObject"} \cap CallOps, b \in Buckets, k \in Keys}
   \cup {MkCall("DeleteObject", b, k, "", "none", "ifm", e, "") : op \in {"DeleteObjectCond"} \cap CallOps, b \in Buckets, k \in Keys, e \in Blobs}
   \cup {MkCall("AppendObject", b, k, bl, "none", "none", "", "") : op \in {"AppendObject"} \cap CallOps, b \in Buckets, k \in Keys, bl \in Blobs}
-  \cup {MkCall("GetObject", b, k, "", "none", "none", "", "") : op \in {"GetObject"} \cap CallOps, b \in Buckets, k \in Keys}
+  \cup {MkCall(op, b, k, "", "none", "none", "", "") : op \in KeyReads \cap CallOps, b \in Buckets, k \in Keys}
+  \cup {MkCall(op, b, "", "", "none", "none", "", "") : op \in BucketReads \cap CallOps, b \in Buckets}
 
-IsRead(c)  == c.op \in {"GetObject", "ListObjects", "HeadBucket", "ListBuckets"}
+IsRead(c)  == c.op \in KeyReads \cup BucketReads \cup {"ListBuckets"}
 IsWrite(c) == ~IsRead(c)
 \* always queued / routed by the inner versioning status / always synchronous
 AlwaysQueued(c) == c.op \in {"CreateBucket", "DeleteBucket"}
@@ -136,15 +149,32 @@ ReadOn(St, c) ==
     [] c.op = "HeadBucket" ->
          [err |-> IF Exists(St, c.b) THEN "" ELSE "NoSuchBucket", v |-> <<>>]
     [] c.op = "ListBuckets" -> [err |-> "", v |-> <<{b \in Buckets : Exists(St, b)}>>]
+    [] c.op = "HeadObject" ->
+         LET g == GetObject(St, c.b, c.k, -1) IN
+         IF g.r.err # "" THEN [err |-> g.r.err, v |-> <<>>]
+         ELSE LET cur == Current(Versions(St, c.b, c.k)) IN
+              [err |-> "", v |-> <<[vid |-> cur.vid,
+                                    blob |-> IF cur.single /\ Len(Flat(cur.parts)) = 1 THEN Flat(cur.parts)[1] ELSE "other"]>>]
+    [] c.op = "GetObjectTagging" ->
+         LET g == GetObject(St, c.b, c.k, -1) IN
+         IF g.r.err # "" THEN [err |-> g.r.err, v |-> <<>>]
+         ELSE [err |-> "", v |-> <<Current(Versions(St, c.b, c.k)).tags>>]
+    [] c.op = "ListObjectVersions" ->
+         IF ~Exists(St, c.b) THEN [err |-> "NoSuchBucket", v |-> <<>>]
+         ELSE [err |-> "", v |-> <<UNION {{[k |-> k, vid |-> Versions(St, c.b, k)[i].vid, dm |-> Versions(St, c.b, k)[i].dm,
+                                            latest |-> Versions(St, c.b, k)[i].latest] : i \in 1..Len(Versions(St, c.b, k))} : k \in Keys}>>]
+    [] c.op = "GetVersioning" ->
+         IF ~Exists(St, c.b) THEN [err |-> "NoSuchBucket", v |-> <<>>] ELSE [err |-> "", v |-> <<St.bver[c.b]>>]
+    [] c.op \in OpaqueReads -> [err |-> "", v |-> <<>>]
 
 \* ----------------------------------------------------------------- queue
 EntryOf(c, s) == [seq |-> s, op |-> c.op, b |-> c.b, k |-> IF AlwaysQueued(c) THEN "" ELSE c.k,
-                  blob |-> c.blob, opt |-> c.opt, claimed |-> FALSE]
+                  blob |-> c.blob, opt |-> c.opt, owner |-> ""]
 CallOfEntry(e) == MkCall(e.op, e.b, e.k, e.blob, e.opt, "none", "", "")
 ApplyEntry(St, e) == ApplyW(St, CallOfEntry(e), "none")
 
-ScopeOf(c) == CASE c.op \in {"ListObjects", "PutVersioning"} -> [kind |-> "bucket", b |-> c.b, k |-> ""]
-                [] c.op = "HeadBucket"  -> [kind |-> "gbucket", b |-> c.b, k |-> ""]
+ScopeOf(c) == CASE c.op \in WholeBucketReads \cup {"PutVersioning"} -> [kind |-> "bucket", b |-> c.b, k |-> ""]
+                [] c.op \in GlobalBucketReads -> [kind |-> "gbucket", b |-> c.b, k |-> ""]
                 [] c.op = "ListBuckets" -> [kind |-> "global", b |-> "", k |-> ""]
                 [] OTHER -> [kind |-> "key", b |-> c.b, k |-> c.k]
 Matches(e, sc) == CASE sc.kind = "key"     -> e.b = sc.b /\ (e.k = "" \/ e.k = sc.k)
@@ -174,11 +204,12 @@ Fold(acc) == FoldN(acc, Len(acc))
 Proj(St) == [bver |-> St.bver, keys |-> [b \in Buckets |-> [k \in Keys |-> KeyView(St, b, k)]]]
 
 \* ------------------------------------------------------------------- init
+WIdle == [pc |-> "idle", seq |-> 0]
 IdleRec == [pc |-> "idle", call |-> NoCall, last |-> 0, must |-> 0, base |-> <<>>, res |-> [err |-> "", v |-> <<>>], ryw |-> TRUE, condok |-> TRUE]
 Init == /\ inner = Fresh
         /\ queue = <<>> /\ nseq = 1 /\ accepted = <<>> /\ virt = Fresh
         /\ cl = [c \in Clients |-> IdleRec]
-        /\ wk = [pc |-> "idle", seq |-> 0]
+        /\ wk = [w \in Workers |-> WIdle]
         /\ cnt = [ops |-> 0, restarts |-> 0]
         /\ taken = {}
 
@@ -273,50 +304,55 @@ Inner(c) ==
   /\ UNCHANGED <<queue, nseq, wk, cnt, taken>>
 
 \* ----------------------------------------------------------------- worker
-Claim ==
-  /\ wk.pc = "idle" /\ queue # <<>> /\ ~queue[1].claimed
-  /\ queue' = [queue EXCEPT ![1].claimed = TRUE]
-  /\ wk' = [pc |-> "claimed", seq |-> queue[1].seq]
+\* ClaimFirstStorageOutboxEntry looks at the OLDEST entry only: held by another owner => no claim
+\* (head-of-line blocking is what keeps the replay FIFO with several claim owners)
+Claim(w) ==
+  /\ wk[w].pc = "idle" /\ queue # <<>> /\ queue[1].owner = ""
+  /\ queue' = [queue EXCEPT ![1].owner = w]
+  /\ wk' = [wk EXCEPT ![w] = [pc |-> "claimed", seq |-> queue[1].seq]]
   /\ UNCHANGED <<inner, nseq, accepted, virt, cl, cnt, taken>>
 
-Replay ==
-  /\ wk.pc = "claimed"
-  /\ \E a \in {ApplyEntry(inner, queue[QIdx(wk.seq)])} :
+Replay(w) ==
+  /\ wk[w].pc = "claimed"
+  /\ \E a \in {ApplyEntry(inner, queue[QIdx(wk[w].seq)])} :
      /\ inner' = a.s
-     /\ wk' = [wk EXCEPT !.pc = IF a.r.err = "" THEN "replayed" ELSE "failed"]
+     /\ wk' = [wk EXCEPT ![w].pc = IF a.r.err = "" THEN "replayed" ELSE "failed"]
   /\ UNCHANGED <<queue, nseq, accepted, virt, cl, cnt, taken>>
 
-Finalize ==
-  /\ wk.pc = "replayed"
-  /\ queue' = SelectSeq(queue, LAMBDA e : e.seq # wk.seq)
-  /\ wk' = [pc |-> "idle", seq |-> 0]
+Finalize(w) ==
+  /\ wk[w].pc = "replayed"
+  /\ queue' = SelectSeq(queue, LAMBDA e : e.seq # wk[w].seq)
+  /\ wk' = [wk EXCEPT ![w] = WIdle]
   /\ UNCHANGED <<inner, nseq, accepted, virt, cl, cnt, taken>>
 
-Release ==
-  /\ wk.pc = "failed"
-  /\ queue' = [queue EXCEPT ![QIdx(wk.seq)].claimed = FALSE]
-  /\ wk' = [pc |-> "idle", seq |-> 0]
+Release(w) ==
+  /\ wk[w].pc = "failed"
+  /\ queue' = [queue EXCEPT ![QIdx(wk[w].seq)].owner = ""]
+  /\ wk' = [wk EXCEPT ![w] = WIdle]
   /\ UNCHANGED <<inner, nseq, accepted, virt, cl, cnt, taken>>
 
-\* the process running the worker dies and is restarted: the claim stays until the lease runs out
-WorkerRestart ==
-  /\ wk.pc \in {"claimed", "replayed", "failed"} /\ cnt.restarts < MaxRestarts
-  /\ wk' = [pc |-> "idle", seq |-> 0]
+\* the process running worker w dies and is restarted (new claim owner id): its claim stays until
+\* the lease runs out
+WorkerRestart(w) ==
+  /\ wk[w].pc \in {"claimed", "replayed", "failed"} /\ cnt.restarts < MaxRestarts
+  /\ wk' = [wk EXCEPT ![w] = WIdle]
   /\ cnt' = [cnt EXCEPT !.restarts = @ + 1]
   /\ UNCHANGED <<inner, queue, nseq, accepted, virt, cl, taken>>
+\* only the lease of a dead owner runs out (a live one keeps it alive with its heartbeat)
 LeaseExpire ==
-  /\ wk.pc = "idle" /\ queue # <<>> /\ queue[1].claimed
-  /\ queue' = [queue EXCEPT ![1].claimed = FALSE]
+  /\ queue # <<>> /\ queue[1].owner # "" /\ wk[queue[1].owner].pc = "idle"
+  /\ queue' = [queue EXCEPT ![1].owner = ""]
   /\ UNCHANGED <<inner, nseq, accepted, virt, cl, wk, cnt, taken>>
 
 Next == \/ \E c \in Clients : \/ \E call \in Calls : Invoke(c, call)
                               \/ Route(c) \/ Enqueue(c) \/ DrainStart(c) \/ DrainPoll(c) \/ Inner(c)
-        \/ Claim \/ Replay \/ Finalize \/ Release \/ WorkerRestart \/ LeaseExpire
+        \/ \E w \in Workers : Claim(w) \/ Replay(w) \/ Finalize(w) \/ Release(w) \/ WorkerRestart(w)
+        \/ LeaseExpire
 
 Spec == Init /\ [][Next]_vars
 
 \* ------------------------------------------------------------- properties
-Drained == queue = <<>> /\ wk.pc = "idle"
+Drained == queue = <<>> /\ \A w \in Workers : wk[w].pc = "idle"
 \* C21a: every read reflected every write accepted before it started
 ReadYourWrites == \A c \in Clients : cl[c].ryw
 \* C21b: once drained, the inner storage is the fold of the accepted writes in acceptance order
@@ -331,9 +367,10 @@ SyncWriteSeesAll ==
   \A c \in Clients : (cl[c].pc = "inner" /\ IsWrite(cl[c].call)) => MatchSeqs(ScopeOf(cl[c].call)) = {}
 \* FIFO: queue entries are in acceptance order and the worker holds the oldest one
 QueueOrdered == /\ \A i, j \in 1..Len(queue) : i < j => queue[i].seq < queue[j].seq
-                /\ wk.pc # "idle" => (InQueue(wk.seq) /\ queue[1].seq = wk.seq)
+                /\ \A w \in Workers : wk[w].pc # "idle" => (InQueue(wk[w].seq) /\ queue[1].seq = wk[w].seq /\ queue[1].owner = w)
+                /\ \A i \in 2..Len(queue) : queue[i].owner = ""
 ClientSym == Permutations(Clients)    \* MC configs declare Clients as model values
-TypeOK == /\ wk.pc \in {"idle", "claimed", "replayed", "failed"}
+TypeOK == /\ \A w \in Workers : wk[w].pc \in {"idle", "claimed", "replayed", "failed"}
           /\ \A c \in Clients : cl[c].pc \in {"idle", "route", "enq", "drain", "poll", "inner"}
           /\ StateOK(inner)
 =============================================================================
